@@ -1,0 +1,52 @@
+//go:build verif
+
+package metric
+
+import "sort"
+
+// Hooks for the verification harness in /verif (build tag "verif"). Add-only: nothing in the
+// library calls these.
+
+func verifKeys(m map[string]bool) []string {
+	r := []string{}
+	for k, v := range m {
+		if v {
+			r = append(r, k)
+		}
+	}
+	sort.Strings(r)
+	return r
+}
+
+// VerifRoundTo1Decimal exposes roundTo1Decimal.
+func VerifRoundTo1Decimal(x float64) float64 { return roundTo1Decimal(x) }
+
+// VerifRoundTo2Decimal exposes roundTo2Decimal.
+func VerifRoundTo2Decimal(x float64) float64 { return roundTo2Decimal(x) }
+
+// VerifSeverity exposes severity.
+func VerifSeverity(x float64) Severity { return severity(x) }
+
+// VerifNames returns the sorted names recorded by decodeOne (nil for a nil receiver).
+func (m *Base) VerifNames() []string {
+	if m == nil {
+		return nil
+	}
+	return verifKeys(m.names)
+}
+
+// VerifNames returns the sorted names recorded by decodeOne (nil for a nil receiver).
+func (m *Temporal) VerifNames() []string {
+	if m == nil {
+		return nil
+	}
+	return verifKeys(m.names)
+}
+
+// VerifNames returns the sorted names recorded by decodeOne (nil for a nil receiver).
+func (m *Environmental) VerifNames() []string {
+	if m == nil {
+		return nil
+	}
+	return verifKeys(m.names)
+}
